@@ -62,7 +62,7 @@ CLAIMED = {
  'C08': dict(
    technique='runtime monitoring: online reference-model monitor over call records of seeded random histories (generic driver, hostile peer, small alphabets), every call under catch_unwind in the overflow-checks build; black-box id probing',
    level='exploration',
-   text='In-use set model + ownership model: acquire returns a free id (P1), register succeeds iff free and in range (P2), a release is announced only for an in-use id and never twice (P3), the real in-use set (hook, cross-checked by register/release probing) equals the model after EVERY call (P4: no silent free, no leak), completion/refusal/close release exactly the ids the statement names (P5a-c), release_packet_id is total incl. 0 and free ids (P7), an id is released by erase only when its exchange ends (P10), every stored packet dropped as oversize on resume has its id released (P9), the release-on-send-error hint names the packets own id iff the packet is not stored (P11). Directed workloads: all 65535 ids in use at once / exhaustion / smallest-first (P6); one exchange in every stage (awaiting PUBACK, PUBREC, bare PUBREL, PUBREL with properties) resumed under 17 Maximum Packet Size values x automatic responses on/off.',
+   text='In-use set model + ownership model: acquire returns a free id (P1), register succeeds iff free and in range (P2), a release is announced only for an in-use id and never twice (P3), the real in-use set (hook, cross-checked by register/release probing) equals the model after EVERY call (P4: no silent free, no leak), completion/refusal/close release exactly the ids the statement names (P5a-c), release_packet_id is total incl. 0 and free ids (P7), an id is released by erase only when its exchange ends (P10), every stored packet dropped as oversize on resume has its id released (P9), the release-on-send-error hint names the packets own id iff the packet is not stored (P11). In a quarter of the histories a client reconnects without notify_closed(); from then on only the conservation rules P3/P4 are judged. Directed workloads: all 65535 ids in use at once / exhaustion / smallest-first (P6); one exchange in every stage (awaiting PUBACK, PUBREC, bare PUBREL, PUBREL with properties) resumed under 17 Maximum Packet Size values x automatic responses on/off.',
    note='Trusted: the reference model of DESIGN Appendix F (written from the property statements, updated only from calls, returned events and public probes) and the application contract of DESIGN §3.3. The hook digest is only used to read the in-use id set faster; the same clause is re-checked black-box by register()/release() probing on a sample of calls.',
    design='DESIGN.md §4 + Appendix F'),
  'C12': dict(
@@ -98,7 +98,7 @@ CLAIMED = {
  'C02': dict(
    technique='runtime monitoring: round-trip identities evaluated on generated packets built through the public builders (boundary-biased generator, 4 SSO feature builds in thorough), every call under catch_unwind',
    level='exploration',
-   text='About 1.3 M (quick) / 60 M (thorough) abstract packets over all 29 kinds x u16/u32 ids x optional fields x property sets x lengths around 127/128, 16383/16384, 65535, 2097151/2 and the SSO thresholds are built through the public builders - every other one through a permuted sequence of builder / setter calls with overwritten decoy values (SubOpts setters, CONNECT and PUBLISH builders: a packet is a function of its fields, not of the calls that set them); for each: size()==len, vectored==contiguous serialisation, Remaining Length on the wire, parse(own bytes)==packet with consumed==body, store-packet wrapper, and the v5 PUBLISH helper methods that recompute cached lengths. Directed packets hit every VBI boundary exactly. Quick also runs the sso-lv10 build; thorough all four SSO builds.',
+   text='About 1.3 M (quick) / 60 M (thorough) abstract packets over all 29 kinds x u16/u32 ids x optional fields x property sets x lengths around 127/128, 16383/16384, 65535, 2097151/2 and the SSO thresholds are built through the public builders - every other one through a permuted sequence of builder / setter calls with overwritten decoy values (SubOpts setters, CONNECT and PUBLISH builders: a packet is a function of its fields, not of the calls that set them); for each: size()==len, vectored==contiguous serialisation, Remaining Length on the wire, parse(own bytes)==packet with consumed==body, store-packet wrapper, the v5 PUBLISH helper methods that recompute cached lengths, and builder states the abstract packets cannot express (will properties without a will: R9). Directed packets hit every VBI boundary exactly. Quick also runs the sso-lv10 build; thorough all four SSO builds.',
    note='Trusted: my generator only produces what the builders accept (builder rejections are counted in the evidence); Eq of library packets.',
    design='DESIGN.md §4 C02'),
  'C03': dict(
@@ -122,7 +122,7 @@ CLAIMED = {
  'C20': dict(
    technique='runtime monitoring: differential oracle (BTreeSet set model) + representation-invariant hook over exhaustive short operation sequences and long random sequences; every call under catch_unwind with overflow checks on',
    level='exploration',
-   text='Every operation sequence up to depth 6-7 (quick) / 7-8 (thorough) over ranges of width 1-4 at 0, 1, mid-range and the type maximum of u8/u16/u32 is executed against the real ValueAllocator and compared, answer by answer, with a set model; after every operation is_used (in and out of range), first_vacant, interval_count and the hook interval list are compared with the model (sorted, disjoint, maximally merged). Plus thousands of 1000-op random sequences over full u16/u32 ranges, PacketIdManager and TopicAliasSend sequences, and full u16 exhaustion. Exhaustive within the stated bounds, sampling beyond them.',
+   text='Every operation sequence up to depth 6-7 (quick) / 7-8 (thorough) over ranges of width 1-4 at 0, 1, mid-range and the type maximum of u8/u16/u32 and at both ends and around zero of the signed i8/i16 is executed against the real ValueAllocator and compared, answer by answer, with a set model; after every operation is_used (in and out of range), first_vacant, interval_count and the hook interval list are compared with the model (sorted, disjoint, maximally merged). Plus thousands of 1000-op random sequences over full u16/u32/i8/i16 ranges, long runs of used values with releases whose free neighbour is further than T::MAX away (A11), PacketIdManager and TopicAliasSend sequences, and full u16 exhaustion. Exhaustive within the stated bounds, sampling beyond them.',
    note='Trusted: the BTreeSet model as specification; deallocate of an out-of-range value may be refused by the range assertion or ignored, but must free nothing (A10). Hook verif_intervals is a plain copy of the pool.',
    design='DESIGN.md §4 C20'),
 }
